@@ -147,6 +147,11 @@ Definition spec_entry_at (off : Z) (ents : list eh_abs) (n : Z) : res eh_out :=
 Definition spec_disasm_res (b : list Z) : res mnitems :=
   match spec_disasm (S (List.length b)) b with Some l => Ok l | None => Err (EPy "truncated") end.
 
+(* the ten Elf_Shdr fields as the harness wrote them into the section header table *)
+Definition g_shdr (s : sx) : shdr :=
+  combine ["sh_name"; "sh_type"; "sh_flags"; "sh_addr"; "sh_offset"; "sh_size"; "sh_link"; "sh_info";
+           "sh_addralign"; "sh_entsize"] (map gI (gL s)).
+
 Definition dispatch (req : sx) : sx :=
   let l := gL req in
   let op := gS (nthx 0 l) in
@@ -158,6 +163,15 @@ Definition dispatch (req : sx) : sx :=
   else if op =? "attr_expected" then sx_ok (sx_section (expected_section (g_flavour a1) (g_section a2)))
   else if op =? "attr_model" then
     sx_res sx_section (read_attr_section (g_impl a1) (gbool a2) (gB a3) (gI a4) (gI a5))
+  else if op =? "attr_model_sec" then
+    sx_res sx_section (read_attr_section_sec (g_impl a1) (gbool a2) (gB a3) (g_shdr a4))
+  else if op =? "attr_hist_model_sec" then
+    sx_res (fun r => SL (map sx_hans r))
+           (attr_hist_sec (g_impl a1) (gbool a2) (gB a3) (g_shdr a4) (map g_hop (gL a5)))
+  else if op =? "eh_model_sec" then
+    sx_res (fun r => sx_entry r (model_mnemonics r)) (get_entry_sec (gB a1) (gbool a2) (g_shdr a3) (gI a4))
+  else if op =? "eh_hist_model_sec" then
+    SL (map sx_eans (eh_hist_sec (gB a1) (gbool a2) (g_shdr a3) (map g_eop (gL a4))))
   else if op =? "attr_hist_model" then
     sx_res (fun r => SL (map sx_hans r))
            (attr_hist (g_impl a1) (gbool a2) (gB a3) (gI a4) (gI a5) (map g_hop (gL (nthx 6 l))))
